@@ -165,3 +165,46 @@ def run(ctx: Ctx):
                 bad.append(f"close calls {closes}")
             if bad:
                 ctx.violation("failing-input", "warm", dict(case, restart_step=r), dict(broken=bad[:4], theorem="Ladim.C19.call_log_warm"), tags=dict(first=bad[0][:24]))
+
+    # ---- the IBM's kills: effective from the next record on, in both layouts; the IBM is called once per step
+    nk = 40 if ctx.thorough else 10
+    kcases = []
+    for k in range(nk):
+        sc = scen.gen(ctx.seed * 100000 + 19500 + k, rev=False, kills=True, layout=["dense", "sparse"][k % 2], period=[1, 2, 1, 3][k % 4],
+                      numrec=0, continuous=False, speed=0.25, land=False)
+        # one-off kills of particles that certainly exist: the first particles, at early steps
+        total0 = sum(x["mult"] for x in sc["rows"] if x["step"] == 0)
+        sc["kill"] = {"1": [0], "2": [max(0, total0 - 1)]} if sc["nsteps"] > 3 else {"0": [0]}
+        kcases.append(sc)
+    kres = pmap(scen.run_real, kcases)
+    kwant = driver([scen.request(sc) for sc in kcases])
+    for sc, g, w in zip(kcases, kres, kwant):
+        case = dict(scenario=scen.brief(sc), kill=sc["kill"])
+        ctx.case("ibm-kills", [sc["seed"], sc["layout"], sc["period"], str(sc["kill"])], sample=case)
+        ctx.count("kills-layout:" + sc["layout"])
+        bad = []
+        if g["status"] != "ok" or not g.get("ibm"):
+            ctx.violation("failing-input", "ibm-kills", case, dict(status=g["status"]), tags=dict(first="status")); continue
+        log = g["ibm"]["log"]
+        if [e["step"] for e in log] != list(range(sc["nsteps"])):
+            bad.append(f"IBM.update was called at steps {[e['step'] for e in log]}, expected once per step 0..{sc['nsteps'] - 1}")
+        if g["ibm"].get("closed") != 1:
+            bad.append(f"IBM.close was called {g['ibm'].get('closed')} times")
+        for st_, pids in sc["kill"].items():
+            for e in log:
+                if e["step"] > int(st_):
+                    seen = {p: a for p, a in zip(e["pid"], e["alive"])}
+                    for p_ in pids:
+                        if seen.get(p_, 0):
+                            bad.append(f"pid {p_} killed by the IBM at step {st_} is shown to the IBM as living at step {e['step']}")
+        if bad:
+            ctx.violation("failing-input", "ibm-kills", case, dict(broken=bad[:4], theorem="Ladim.C19.ibm_kill_from_next_record / ibm_sees_moved_particles_once"),
+                          tags=dict(first=bad[0][:16]))
+            continue
+        if "error" in w:
+            ctx.violation("tie-broken", "ibm-kills", case, dict(model=w)); continue
+        diffs = scen.compare_files(sc, g["files"], w["files"])
+        if diffs:
+            ctx.violation("failing-input", "ibm-kills", case,
+                          dict(differences=[dict(what=a, implementation=str(x)[:300], model=str(y)[:300]) for a, x, y in diffs[:3]],
+                               theorem="Ladim.C19.ibm_kill_from_next_record (records = the model's records)"), tags=dict(first="records"))
